@@ -121,6 +121,44 @@ let stepped (s : srv) rx an na k fails : srv * out list * string list =
 (* per-step records handed to the property oracles *)
 type step = { ev : ev; pre : srv; post : srv; outs : out list; impl_obs : string }
 
+let initial_server g =
+  let (netid, nonce_off) = match String.split_on_char ':' (g "cfg") with [a; b] -> (int_of_string a, b = "1") | _ -> failwith "cfg" in
+  let apps = List.map hexn (String.split_on_char ',' (g "apps")) in
+  let devs = List.map parse_dev (String.split_on_char ';' (g "pop")) in
+  let devs_u = List.fold_left (fun acc dv -> if List.exists (fun x -> x.d_eui = dv.d_eui) acc then acc else acc @ [dv]) [] devs in
+  let euis = List.sort cmp_n (List.map (fun dv -> dv.d_eui) devs_u) in
+  let tab = List.map (fun dv -> (dv.d_eui, { ds_row = Some dv; ds_nonces = []; ds_inbox = []; ds_outbox = []; ds_fb = None })) devs_u in
+  ({ s_tab = tab; s_apps = apps; s_cfg = { cfg_netid = n_of_int netid; cfg_disable_nonce_check = nonce_off } }, euis)
+
+(* two frames of one device, their handlers interleaved as the schedule says (Model/Steps.v interleave) *)
+let run_sched g _obs =
+  let (s0, euis) = initial_server g in
+  let pre = if g "pre" = "" then [] else List.map parse_event (String.split_on_char '|' (g "pre")) in
+  let s1 = List.fold_left (fun s ev -> match ev with Sub m -> fst (submit s m) | _ -> s) s0 pre in
+  let frame_of tag = match parse_event (g tag) with Rx (rx, an, na) -> (rx, an, na) | _ -> failwith "frame" in
+  let (rx1, an, na) = frame_of "f1" in
+  let (rx2, _, _) = frame_of "f2" in
+  let sched = List.init (String.length (g "sched")) (fun i -> (g "sched").[i] = '1') in
+  let prog_of rx =
+    match decode (mk_slice rx.rx_raw []) with
+    | Ok f ->
+      let mt = int_of_n f.mtype in
+      if mt = 0 then Some (f.jr.jr_deveui, join_prog e d s1.s_cfg f rx an na)
+      else (match List.filter (mic_ok e f rx.rx_raw) (dt_by_devaddr s1.s_tab (devaddr_u32 f.f_devaddr)) with
+          | [dv] -> Some (dv.d_eui, uplink_prog e d f rx (S O) (n_of_int 1))
+          | _ -> None)
+    | _ -> None in
+  match prog_of rx1, prog_of rx2 with
+  | Some (eui, p), Some (eui2, q) when eui = eui2 ->
+    let st = dt_get s1.s_tab eui in
+    let fuel = nat_of_int 100 in
+    let (st', outs) = interleave s1.s_apps sched fuel st p q [] in
+    let tr = List.map (fun (b, nm) -> (if b then "1:" else "0:") ^ ocaml_string_of nm) (itrace s1.s_apps sched fuel st p q) in
+    let s2 = { s1 with s_tab = dt_put s1.s_tab eui st' } in
+    let downs_only = List.filter (function ODown _ -> true | _ -> false) outs in
+    (out_strings downs_only ^ " " ^ dump_all s2 euis ^ " ; trace{" ^ String.concat "," tr ^ "}", s1, s2, eui)
+  | _ -> failwith "sched case: frames do not belong to one device"
+
 let run_history g obs (judge : n list -> step list -> string) =
   let (netid, nonce_off) = match String.split_on_char ':' (g "cfg") with [a; b] -> (int_of_string a, b = "1") | _ -> failwith "cfg" in
   let apps = List.map hexn (String.split_on_char ',' (g "apps")) in
